@@ -82,6 +82,26 @@ class Report:
             self.assumptions.append(text)
 
     # ------------------------------------------------------------------ finishing
+    def evaluate(self, floors_enforced=True):
+        """(unlisted violations, known-finding hits) without printing or writing anything."""
+        from .core import AnalysisError
+
+        known = load_known(self.property_id)
+        if floors_enforced:
+            for rid, r in self.rules.items():
+                if r["count"] < r["floor"] and r["violations"] == 0:
+                    raise AnalysisError(f"rule {rid} matched {r['count']} instances, below its floor {r['floor']}")
+        violations, known_hits = [], []
+        for o in self.obligations:
+            if o.status != "violation":
+                continue
+            k = known.get((o.rule, o.key))
+            if k is not None and k.get("status") == "known":
+                known_hits.append((o, k))
+            else:
+                violations.append(o)
+        return violations, known_hits
+
     def finish(self, evidence_dir=None, floors_enforced=True):
         """Writes evidence, prints the verdict lines, returns the exit code."""
         from .core import AnalysisError
